@@ -275,6 +275,27 @@ func FixedCorpus() []*Unit {
 		out = append(out, ub)
 	}
 
+	// ---- alpha/types, beta/types: different import paths, same Go package name
+	{
+		fa := NewFile("verif/alpha/types.proto", "verif.alpha.types", GoRoot+"alpha/types")
+		fa.Enum("Denom", "DENOM_UNSPECIFIED", 0, "DENOM_A", 3)
+		c := fa.Msg("Coin")
+		c.F("amount", 1, S(Uint64))
+		c.F("denom", 2, E("verif.alpha.types.Denom"))
+		out = append(out, &Unit{Name: "alpha/types", File: fa, Label: []string{"Go package named types (imported)"}})
+		fb := NewFile("verif/beta/types.proto", "verif.beta.types", GoRoot+"beta/types", "verif/alpha/types.proto")
+		wl := fb.Msg("Wallet")
+		wl.F("coin", 1, M("verif.alpha.types.Coin"))
+		wl.R("coins", 2, M("verif.alpha.types.Coin"))
+		wl.Map("by_name", 3, String, M("verif.alpha.types.Coin"))
+		wl.F("denom", 4, E("verif.alpha.types.Denom"))
+		wl.Map("denoms", 5, Int32, E("verif.alpha.types.Denom"))
+		o := wl.Oneof("pick")
+		wl.O(o, "one", 6, M("verif.alpha.types.Coin"))
+		wl.O(o, "kind", 7, E("verif.alpha.types.Denom"))
+		out = append(out, &Unit{Name: "beta/types", File: fb, Label: []string{"imports a Go package with the same package name under another import path"}})
+	}
+
 	// ---- wkt: well-known types in every position
 	{
 		u, f := unit("wkt", "Any/Timestamp/Duration/FieldMask/Struct/Value/wrappers/Empty in singular/repeated/map/oneof")
